@@ -361,6 +361,18 @@ func compare(t *rapid.T, rec *ev.Rec, s *spend, fs flagSet) ms.Result {
 	for _, l := range r.Layers {
 		rec.Count("layer:"+l, 1)
 	}
+	if r.Valid() {
+		switch n := r.LastLayerOps; {
+		case n <= 5:
+			rec.Count("valid-depth:1-5", 1)
+		case n <= 20:
+			rec.Count("valid-depth:6-20", 1)
+		case n <= 60:
+			rec.Count("valid-depth:21-60", 1)
+		default:
+			rec.Count("valid-depth:>60", 1)
+		}
+	}
 
 	sigCache := txscript.NewSigCache(64)
 	err, stage := btcdVerdict(s, fs, sigCache, nil)
@@ -369,7 +381,7 @@ func compare(t *rapid.T, rec *ev.Rec, s *spend, fs flagSet) ms.Result {
 	}
 	if (err == nil) != r.Valid() {
 		if sig := knownSignature(s, fs, r, err); sig != "" &&
-			rec.Known(sig, fmt.Sprintf("btcd err=%v, model %s", err, r)) {
+			rec.Known(sig, fmt.Sprintf("btcd accepts=%v, Core semantics (model) accept=%v", err == nil, r.Valid())) {
 			rec.Excluded()
 			return r
 		}
